@@ -56,7 +56,7 @@ NOOPEN=""
 "$HERE/../bin/simrewrite" -dir "$S/repo" -out "$S/sites-repo.json" -base 0 -openpkgs "$MODPATH" $NOOPEN \
    || fail "simrewrite failed on the repo copy"
 if [ $HAVE_CHARDET = 1 ]; then
-  "$HERE/../bin/simrewrite" -dir "$S/chardet" -out "$S/sites-chardet.json" -base 100000 -yields=false -maps=false \
+  "$HERE/../bin/simrewrite" -dir "$S/chardet" -out "$S/sites-chardet.json" -base 100000 -yields=false -maps=false -blocking=false \
      -goctl "github.com/gogs/chardet.Detector.DetectBest,github.com/gogs/chardet.Detector.DetectAll" \
      || fail "simrewrite failed on the chardet copy"
 else
